@@ -29,6 +29,8 @@ type Case struct {
 	Reads  []int  `json:"reads"`
 	B2     bool   `json:"b2"`
 	Family string `json:"family"`
+	// Src: sizes of the pieces in which the compressed stream reaches the Reader (nil: all at once)
+	Src []int `json:"src,omitempty"`
 }
 
 func (c Case) sample() any {
@@ -81,8 +83,8 @@ func compress(in []byte, writes []int, b2 bool) (out []byte, nWrites int, err er
 	return buf.Bytes(), nWrites, nil
 }
 
-func decompress(z []byte, reads []int, b2 bool, limit int) (out []byte, nReads int, err error) {
-	r, err := lzhuf.NewReader(bytes.NewReader(z), b2)
+func decompress(z []byte, reads []int, b2 bool, limit int, src []int) (out []byte, nReads int, err error) {
+	r, err := lzhuf.NewReader(gen.NewSource(z, src), b2)
 	if err != nil {
 		return nil, 0, fmt.Errorf("NewReader: %v", err)
 	}
@@ -145,7 +147,7 @@ func run(c Case) (sig, msg string, nW, nR int) {
 			sig, msg = "chunking-dependent-output", fmt.Sprintf("compressed bytes differ between one Write and the partition %v (%d vs %d bytes)", c.Writes, len(oneShot), len(chunked))
 			return
 		}
-		back, nR, err = decompress(chunked, c.Reads, c.B2, len(c.Input))
+		back, nR, err = decompress(chunked, c.Reads, c.B2, len(c.Input), c.Src)
 		if err != nil {
 			sig, msg = "decompress-error", err.Error()
 			return
@@ -216,7 +218,7 @@ func TestProp(t *testing.T) {
 	max := harness.Scale(256<<10, 1<<20)
 	rapid.Check(t, func(t *rapid.T) {
 		in, fam := gen.Bytes(t, max)
-		c := Case{Input: in, Family: fam, Writes: gen.Schedule(t, "writes"), Reads: gen.Schedule(t, "reads"), B2: rapid.Bool().Draw(t, "b2")}
+		c := Case{Input: in, Family: fam, Writes: gen.Schedule(t, "writes"), Reads: gen.Schedule(t, "reads"), B2: rapid.Bool().Draw(t, "b2"), Src: gen.SourceSchedule(t, "src")}
 		sig, msg, nW, nR := run(c)
 		account(c, nW, nR)
 		if sig != "" {
@@ -238,7 +240,7 @@ func TestExhaustive(t *testing.T) {
 		n := len(in)
 		variants := []Case{
 			{Input: in, Writes: []int{1 << 30}, Reads: []int{1 << 16}, B2: true, Family: "exhaustive"},
-			{Input: in, Writes: []int{1}, Reads: []int{1}, B2: idx%2 == 0, Family: "exhaustive"},
+			{Input: in, Writes: []int{1}, Reads: []int{1}, B2: idx%2 == 0, Family: "exhaustive", Src: []int{1}},
 		}
 		if n >= 2 {
 			k := 1 + idx%(n-1)
